@@ -329,9 +329,13 @@ func (r *Run) checkExtAuth() {
 								r.probe("auth_intercepted")
 							}
 							// (a request that fell to the default host is resolved again inside the backend, where
-						// it may legitimately match the host rule of another ingress: no target check there)
-						if len(out.Intercepts) > 0 && url != "" && exp.accept[0].host != "" {
+							// it may legitimately match the host rule of another ingress: no target check there)
+							if len(out.Intercepts) > 0 && url != "" && exp.accept[0].host != "" {
 								// auth-url has precedence over oauth
+								r.probe("auth_target_checked")
+								if strings.HasPrefix(url, "svc") {
+									r.probe("auth_target_checked_svc_" + ing.Namespace)
+								}
 								if msg := r.checkInterceptTarget(disk, ing, url, out); msg != "" {
 									r.violate(&Violation{Property: "C18", Oracle: "intercept-target", Class: "wrong-auth-service",
 										Witness: fmt.Sprintf("%s (auth-url %s): %s; %s", req, url, msg, out)})
@@ -426,19 +430,30 @@ func (r *Run) checkInterceptTarget(c *HAConfig, ing *networking.Ingress, url str
 			}
 		}
 	case "svc", "service":
-		svcport, _, _ := strings.Cut(rest, "/")
-		name, port, _ := strings.Cut(svcport, ":")
+		// documented format: svc://[namespace/]servicename:port[/path]
+		// (the first segment is a namespace when the second one carries the port)
+		segs := strings.SplitN(rest, "/", 3)
 		ns := ing.Namespace
-		if i := strings.IndexByte(name, '/'); i >= 0 {
-			ns, name = name[:i], name[i+1:]
+		nameport := segs[0]
+		pathSegs := segs[1:]
+		if len(segs) >= 2 && !strings.Contains(segs[0], ":") && strings.Contains(segs[1], ":") {
+			ns, nameport, pathSegs = segs[0], segs[1], segs[2:]
 		}
-		// auth-url names the backend by <service>:<port as written>
+		name, port, _ := strings.Cut(nameport, ":")
+		wantPath = "/"
+		if len(pathSegs) > 0 {
+			wantPath = "/" + strings.Join(pathSegs, "/")
+		}
+		// auth-url names the backend by <service>:<port as written>; the port may also be the target port
+		if s, sp := r.findServicePort(ns, name, port); s != nil && sp == nil {
+			for i := range s.Spec.Ports {
+				if s.Spec.Ports[i].TargetPort.String() == port {
+					port = fmt.Sprint(s.Spec.Ports[i].Port)
+				}
+			}
+		}
 		ready, _ := r.expectedServers(ns, name, port)
 		wantAddrs = ready
-		wantPath = "/"
-		if _, pp, ok := strings.Cut(strings.TrimPrefix(rest, svcport), "/"); ok {
-			wantPath = "/" + pp
-		}
 	}
 	sort.Strings(wantAddrs)
 	if authPath != wantPath {
